@@ -42,8 +42,12 @@ func Match(matchPrice math.LegacyDec, prices []math.LegacyDec, bidsByPrice map[s
 			case BidTypeBatchMany:
 				bidAmt = bid.Coin.Amount
 			}
-			biddableAmt := biddableAmtByBidder[bid.Bidder]
-			matchAmt := math.MinInt(bidAmt, biddableAmtByBidder[bid.Bidder])
+			biddableAmt, ok := biddableAmtByBidder[bid.Bidder]
+			if !ok {
+				// a bidder without an allow-list entry has no allowance
+				biddableAmt = math.ZeroInt()
+			}
+			matchAmt := math.MinInt(bidAmt, biddableAmt)
 
 			if res.MatchedAmount.Add(matchAmt).GT(sellingAmt) {
 				// Including this bid will exceed the auction's selling amount.
